@@ -13,7 +13,9 @@ from wpull.document.htmlparse.element import Element
 
 class SitemapReader(BaseDocumentDetector, BaseExtractiveReader):
     '''Sitemap XML reader.'''
-    MAX_ROBOTS_FILE_SIZE = 4096
+    # The Sitemap lines are usually the last ones (RFC 9309 section 2.5:
+    # at least 500 kibibytes must be parsed).
+    MAX_ROBOTS_FILE_SIZE = 512 * 1024
 
     def __init__(self, html_parser):
         super().__init__()
